@@ -184,7 +184,7 @@ def tiers(thorough):
     q_join = dict(MC_JOIN, MatcherKinds=S("none", "eq"), AggLabelSets=S(S("a")))
     q_wide = dict(MC_WIDE1, MatcherKinds=S("none", "eq", "empty"), MatcherKindsB=S("none"), CmpOps=S(">="), ArithOps=S("*"),
                   MatchSets=S(S(), S("a")), GroupIncs=S(S(), S("b")), DBC=S(), DBVals=S(1))
-    return [("join", q_join), ("static", MC_STATIC), ("unary", dict(MC_UNARY, DBVals=S(1))), ("wide1", q_wide)], 25, 2500
+    return [("join", q_join), ("static", MC_STATIC), ("unary", dict(MC_UNARY, DBVals=S(1))), ("wide1", q_wide)], 25, 1600
 
 
 def run(ctx, prop, cases_override=None):
@@ -222,10 +222,10 @@ def run(ctx, prop, cases_override=None):
             # ... and of the expressions the model found nothing wrong with
             cs.sort(key=lambda c: json.dumps(c, sort_keys=True))
             rnd.shuffle(cs)
-            cases += cs[:(20000 if thorough else 700)]
-        if len(leads) > (20000 if thorough else 1200):
+            cases += cs[:(20000 if thorough else 450)]
+        if len(leads) > (20000 if thorough else 800):
             rnd.shuffle(leads)
-            leads = leads[:(20000 if thorough else 1200)]
+            leads = leads[:(20000 if thorough else 800)]
         # ---- GEN: simulation over the full vocabulary (deeper, nested binary nodes)
         g = ctx.tlc("LabelFlow", "lf_sim.cfg", files={"lf_sim.cfg": cfg_text(SIM_FULL, ["EmitCase"], fixes)}, simulate=nsim, depth=9,
                     timeout=3000, workers=1, tag="GEN-sim", heap="4g")
@@ -249,7 +249,7 @@ def run(ctx, prop, cases_override=None):
     cpath = write_ndjson(ctx.path("lflow_cases.ndjson"), uniq)
     # ---- EXEC
     tpath = ctx.path("lflow_trace.ndjson")
-    ndb = 800 if thorough else 120
+    ndb = 800 if thorough else 80
     ctx.vh("exec-lflow", cpath, tpath, env={"LF_NDB": str(ndb), "LF_NPREM": str(ndb), "LF_NCONC": "4"}, timeout=3000)
     trace = read_ndjson(tpath)
     if len(trace) != len(uniq):
